@@ -663,6 +663,12 @@ class PowerExpression(BinaryExpression):
         return self.make_ml_tag("msup", "{}{}".format(left_ml, right_ml), self.classes)
 
     def operate(self, one: NumberType, two: NumberType) -> NumberType:
+        if isinstance(one, int) and isinstance(two, int):
+            # numpy would compute this in 64 bit integers: the result wraps around
+            # silently (2^64 == 0) and negative exponents raise an error.
+            if two >= 0:
+                return one**two
+            one = float(one)
         return np.power(one, two)
 
     def __str__(self) -> str:
